@@ -430,6 +430,12 @@ def c14(ctx):
     ctx.assumptions += ["racing calls: two table.Manager instances share one real NodeHost and one real kv.RaftStore (a local metadata read after an acknowledged write is current); store calls are released one at a time in the order of a TLC-generated schedule (gated store wrapper); shards really start and data goes through Raft and Pebble on an in-memory FS",
                         "replica lag: three real engines form one cluster; the metadata state machine of one node is parked in the verif hook (kv.LFSM.Update) while tables are created / deleted through another node, then the lagging node is asked; these calls never overlap"]
     q = ctx.quick
+    # UNBOUNDED: id allocation (with the retry of fix 4a5ee88 and reads that return ANY value the sequence record ever
+    # had) hands out ids in strictly increasing order above the reserved range - any managers, any number of calls (TLAPS)
+    n, wall = tlaps(ctx.sc, "CatalogU")
+    ctx.notes["tlaps"] = dict(module="spec/proofs/CatalogU.tla", obligations_proved=n, wall_s=round(wall, 1),
+                              theorem="Spec => [][every allocated id > every id assigned before, > IdStart]_vars")
+    log("(D) tlapm CatalogU: all %d obligations proved in %.1fs" % (n, wall))
     ctx.design("Catalog", "MC_Catalog_quick.cfg" if q else "MC_Catalog_thorough.cfg")
     # calls that never overlap, issued through nodes whose metadata replica lags (every read is a local read), and without lag
     ctx.design("Catalog", "MC_Catalog_lag.cfg")
